@@ -43,7 +43,7 @@ COW::shared_handle snapshot(COW* c, int form)
 {
     using namespace std::chrono_literals;
 #ifdef MODE_C14
-    noblock_begin("cow_guarded read acquisition", 10);
+    noblock_begin("cow_guarded read acquisition", 24);
 #endif
     COW::shared_handle h = form == 0 ? c->lock_shared() :
         form == 1                    ? c->try_lock_shared() :
